@@ -263,8 +263,17 @@ def lex : Nat → Nat → List Char → Except PErr (List Tok)
       match lexNumber (c :: cs) with
       | none => .error .unitParseError
       | some ((m, e), rest) =>
-        -- `2m`, `1j`, `1_`: a NAME character directly after a number is never accepted
-        if (match rest with | d :: _ => isIdCont d | [] => false) then .error .unitParseError
+        -- `2m`, `1_`: a NAME character directly after a number is never accepted — except the
+        -- imaginary suffix: `1j` is a NUMBER token, `auto_number` writes it as `<number>*I`, the number
+        -- is evaluated (`1e999999999j` does not come back) and then `I`, no name of `global_dict`,
+        -- raises NameError.  The pseudo-name `[NUL]` evaluates to such an immediately failing value.
+        if (match rest with | d :: _ => isIdCont d | [] => false) then
+          match rest with
+          | j :: rest' =>
+            if (j = 'j' || j = 'J') && !(match rest' with | d :: _ => isIdCont d | [] => false) then
+              (lex fuel depth rest').map (fun ts => Tok.num m e :: Tok.star :: Tok.name [Char.ofNat 0] :: ts)
+            else .error .unitParseError
+          | [] => .error .unitParseError
         else (lex fuel depth rest).map (Tok.num m e :: ·)
     else if isIdStart c then
       let (nm, rest) := takeName cs [c]
@@ -541,13 +550,14 @@ def canonTree (cs : List Char) : String :=
     else becomes `Symbol(inv_name_alternatives.get(name, name), positive=True)` -/
 def vName (cs : List Char) : Val :=
   let codes := cs.map Char.toNat
-  if globalFns.contains codes then .fn
+  if codes == [0] then .ty                      -- the `I` of an imaginary literal (see `lex`): NameError
+  else if globalFns.contains codes then .fn
   else if globalTypes.contains codes then .ty
   else .mono ⟨1, [(canonTree cs, 1)]⟩
 
 def evalP : PExpr → Except PErr Val
   | .num m e => do let q ← numValue m e; .ok (.mono ⟨q, []⟩)
-  | .name s => .ok (vName s)
+  | .name s => if s.map Char.toNat == [0] then upe else .ok (vName s)   -- `[NUL]`: the `I` of `1j`, NameError on evaluation
   | .neg e => do let v ← evalP e; vNeg v
   | .pos e => do let v ← evalP e; vPos v
   | .mul a b => do let x ← evalP a; let y ← evalP b; vMul x y
